@@ -58,9 +58,13 @@ Section RankImpl.
     out'.
 End RankImpl.
 
-(* primitive_rank / bytes_rank / byte_view_rank: the (value, index) pairs of the valid slots *)
-Definition rank_valid_pairs (a : list oval) : list (val * nat) :=
-  flat_map (fun i => match slot a i with Some v => [(v, i)] | None => [] end) (seq 0 (length a)).
+(* primitive_rank / bytes_rank / byte_view_rank: the (value, index) pairs of the valid slots, in index order *)
+Fixpoint valid_pairs_from (k : nat) (a : list oval) : list (val * nat) :=
+  match a with
+  | [] => []
+  | o :: r => (match o with Some v => [(v, k)] | None => [] end) ++ valid_pairs_from (S k) r
+  end.
+Definition rank_valid_pairs (a : list oval) : list (val * nat) := valid_pairs_from 0 a.
 Definition rank_m (sort_oracle : (val * nat -> val * nat -> comparison) -> list (val * nat) -> list (val * nat))
     (vc : val -> val -> comparison) (veq : val -> val -> bool) (nf desc : bool) (a : list oval) : list nat :=
   rank_impl sort_oracle veq (length a) (rank_valid_pairs a) nf desc vc.
